@@ -61,3 +61,101 @@ func EnclosingLoops(body ast.Node, pos token.Pos) []*ast.RangeStmt {
 	})
 	return out
 }
+
+// Alternatives lists the expressions a value expression can stand for: the expression itself, or,
+// when it is a call of a small repository function, what that function returns with its parameters
+// replaced by the arguments (recursively, two levels). ok is false when the callee cannot be
+// summarised (written parameters, complex arguments, multiple results, no body).
+func (p *Prog) Alternatives(info *types.Info, e ast.Expr, depth int) []ast.Expr {
+	call, isCall := ast.Unparen(e).(*ast.CallExpr)
+	if !isCall || depth >= 2 {
+		return []ast.Expr{e}
+	}
+	f, ok := calleeFunc(info, call)
+	if !ok {
+		return []ast.Expr{e}
+	}
+	callee := p.DeclOf(f)
+	if callee == nil || callee.Decl.Body == nil || countStmts(callee.Decl.Body) > inlineMaxStmts {
+		return []ast.Expr{e}
+	}
+	sig, _ := f.Type().(*types.Signature)
+	if sig == nil || sig.Variadic() || sig.Results().Len() != 1 || sig.TypeParams().Len() > 0 {
+		return []ast.Expr{e}
+	}
+	cinfo := callee.Pkg.TypesInfo
+	subst := map[types.Object]ast.Expr{}
+	ai := 0
+	for _, fld := range callee.Decl.Type.Params.List {
+		for _, nm := range fld.Names {
+			if ai >= len(call.Args) {
+				return []ast.Expr{e}
+			}
+			if !simpleArg(info, call.Args[ai]) {
+				return []ast.Expr{e}
+			}
+			if o := cinfo.Defs[nm]; o != nil {
+				subst[o] = call.Args[ai]
+			}
+			ai++
+		}
+		if len(fld.Names) == 0 {
+			ai++
+		}
+	}
+	if callee.Decl.Recv != nil {
+		sel, ok := ast.Unparen(call.Fun).(*ast.SelectorExpr)
+		if !ok || !simpleArg(info, sel.X) {
+			return []ast.Expr{e}
+		}
+		if names := callee.Decl.Recv.List[0].Names; len(names) == 1 {
+			if o := cinfo.Defs[names[0]]; o != nil {
+				subst[o] = sel.X
+			}
+		}
+	}
+	// parameters must not be written in the callee
+	written := false
+	ast.Inspect(callee.Decl.Body, func(n ast.Node) bool {
+		switch x := n.(type) {
+		case *ast.AssignStmt:
+			for _, l := range x.Lhs {
+				if o := ObjOf(cinfo, l); o != nil {
+					if _, is := subst[o]; is {
+						written = true
+					}
+				}
+			}
+		case *ast.IncDecStmt:
+			if o := ObjOf(cinfo, x.X); o != nil {
+				if _, is := subst[o]; is {
+					written = true
+				}
+			}
+		}
+		return !written
+	})
+	if written {
+		return []ast.Expr{e}
+	}
+	var out []ast.Expr
+	okAll := true
+	ast.Inspect(callee.Decl.Body, func(n ast.Node) bool {
+		switch x := n.(type) {
+		case *ast.FuncLit:
+			return false
+		case *ast.ReturnStmt:
+			if len(x.Results) != 1 {
+				okAll = false
+				return false
+			}
+			cl := &cloner{info: info, src: cinfo, subst: subst, foreignSubst: true, substSrc: info, at: call.Pos()}
+			out = append(out, p.Alternatives(info, cl.Expr(x.Results[0]), depth+1)...)
+		}
+		return okAll
+	})
+	if !okAll || len(out) == 0 {
+		return []ast.Expr{e}
+	}
+	return out
+}
